@@ -24,6 +24,31 @@ CHECKS = {
             "Half-integers and their neighbouring representable values up to the mantissa width, values a float cannot hold, random coordinates; the chosen "
             "lattice point is observed through nearest_neighbour<identity> and through id-carrying array fields.",
             "Default rounding mode only; ties may go either way.", "DESIGN.md section 4 C04"),
+    "C02": ("exploration", SAN + "reference interpreter (binary128) over grammar-generated stacks",
+            "Stacks are generated from the layer grammar (pairwise adjacency cover in the quick tier, all kind sequences to depth 4 plus sampled depth 5 in the "
+            "thorough tier) with N and M chosen independently; each is compiled against the working tree, filled through the array backend and looked up at "
+            "hundreds of proposed coordinates; a layer-by-layer interpreter of the same description decides in-domain and the expected value; equality.",
+            "Trusted base: harness/model.hpp and gen/zoo.py (the same configuration values go into the C++ parameter pack and into the model).", "DESIGN.md section 4 C02"),
+    "C05": ("exploration", SAN + "ND-array model over exhaustive extent boxes; CUDA host shim",
+            "All ordered pairs of storage orders (Morton BMI2 and portable distinct) for N 1..4, every extent vector up to the bound: configuration, every lattice "
+            "value, source unchanged and unshared, round trip, move-conversion; whole affine<interp<order<array>>> stacks; host->cuda_device_array under a malloc/memcpy shim.",
+            "CUDA path is host-shim only (reduced assurance, as the property states); array length across different orders is deliberately not compared.", "DESIGN.md section 4 C05"),
+    "C06": ("exploration", SAN + "bitwise dump/load/dump monitor + independent Python format reader",
+            "Every generated serialisable stack with special bit patterns (signed zeros, subnormals, infinities, NaN payloads) in storage: configuration per layer, "
+            "stored bits via memcmp, second dump byte-identical, stream consumed exactly; each dump parsed by an independent grammar reader.",
+            "x86-64 SSE scalar moves preserve NaN payloads; patterns compared with memcmp only.", "DESIGN.md section 4 C06"),
+    "C07": ("exploration", SAN + "round-to-nearest definition oracle; golden files of the pinned revision; independent format reader",
+            "Writer/reader pairs differing in interpolation method and/or storage precision with tie and near-tie values; 28 committed golden files written by the "
+            "pinned revision must load, match recorded configuration/values and re-dump byte-identically; hashes and grammar also checked without covfie code.",
+            "Goldens come from one revision (9bc2998); pairs whose configuration payload is typed by the stored scalar are format-incompatible and excluded.", "DESIGN.md section 4 C07"),
+    "C08": ("fault_enumeration", "fault-injecting stream buffer + outcome classification under ASan+UBSan (assertions on/off) + valgrind memcheck error deltas",
+            "Complete enumeration of truncation points of representative dumps, every magic/tag/width word with sampled replacements, a stream failing at the "
+            "n-th read for every n (EOF-style and throwing), pre-failed streams, and all ordered pairs of format-incompatible stacks; the only accepted outcome is a std::exception.",
+            "The element-count word is not corrupted (the property does not promise it); memcheck sees uninitialised, not stale, data.", "DESIGN.md section 4 C08"),
+    "C17": ("exploration", SAN + "configuration read-back monitor over generated stacks + coinciding-type towers for the positional helper",
+            "Per layer, the reported configuration equals the one passed in (directly and via make_parameter_pack_for); a field rebuilt from reported configurations "
+            "and storage agrees with the interpreter; helper exercised at depths 2..10 with adjacent layers of identical configuration type.",
+            "Equality is member-wise on exactly representable values.", "DESIGN.md section 4 C17"),
     "C09": ("exploration", SAN + "binary128 reference with running error bound",
             "Random chains of 1..4 affine transforms in N 1..4, float/double, exact (small integers: equality) and rounded (error bound) tiers, both association orders, "
             "factories and the affine layer over identity through both lookup forms.",
